@@ -37,7 +37,10 @@ DURS = ["1 day", "2 nights", "three days", "eine nacht", "zwei wochen", "half an
         "for one night", "for 90 minutes", "0 days", "a week", "for 4000000 days",
         "für 99999999999 tage", "for 999999 months", "for 120000 weeks", "for 87600000 hours",
         "999999999 m", "half week", "half a month", "1/2 night", "half day", "half hour"]
-LABELS = ["#fun", "#work", "#a-b", "#_x1", "#1st", "#", "#fun#work", "# tag", "#Überraschung"]
+LABELS = ["#fun", "#work", "#a-b", "#_x1", "#1st", "#", "#fun#work", "# tag", "#Überraschung",
+          # '#' followed by characters that mean something to a regular expression or a format
+          "#(x", "#)", "#[a", "#]", "#\\q", "#\\", "#*", "#+1", "#?", "#.", "#|", "#^a", "#$",
+          "#{0}", "#%s", "#a(b", "#work #work", "#b #a #b"]
 INERT = ["beers", "and", "burgers", "lunch", "with", "bob", "call", "zahnarzt", "meeting",
          "xyzzy", "gargelbabel", "kaffee", "-", "--", "q3", "review"]
 NOISE = [" ", "\t", "–", "—", "(", ")", "[", "]", ";", ",", "​", "\n",
@@ -208,6 +211,11 @@ FOLD_EQUIV = [("ss", "ß"), ("ß", "ss"), ("ß", "ẞ"), ("s", "ſ"), ("k", "\u2
 def confuse(rng, text, k=None):
     """replace up to k occurrences of a letter (sequence) by a case-fold / compatibility
     equivalent: the text still "looks" the same to a Unicode-aware case-insensitive pattern"""
+    if any(c.isdigit() for c in text) and rng.random() < 0.3:
+        # every digit written in another script's decimal digits (full-width, Arabic-Indic,
+        # Devanagari): \\d and int() accept them, [0-9] does not
+        base = rng.choice([0xff10, 0x0660, 0x0966, 0x06f0])
+        return "".join(chr(base + ord(c) - 48) if "0" <= c <= "9" else c for c in text)
     low = text.lower()
     cands = [(i, a, b) for a, b in FOLD_EQUIV for i in range(len(low)) if low.startswith(a, i)]
     if not cands:
